@@ -89,6 +89,9 @@ func TestVerifPolicy(t *testing.T) {
 	cfg := filepath.Join(scratch, "store.yaml")
 	os.WriteFile(cfg, []byte(concrete.ConfigYAML(base, 1, sets, []uint{1, 2})), 0600)
 	probes := []string{"x", "password", "Tr0ub4dor&3", "correct horse battery staple", "zq9!Lm#48vRw^t2Ypk"}
+	// long, empty and odd passwords: the verdict must not depend on the length class or the byte content
+	probes = append(probes, "", strings.Repeat("a", 64), strings.Repeat("a", 101), strings.Repeat("a", 120), strings.Repeat("password", 16),
+		strings.Repeat("ab", 100), "pass word", " password ", "PASSWORD", "p\x00assword", "pässwörd", "\xff\xfepassword")
 	for n := 3; n <= 14; n++ { // graded entropies, so that thresholds like 32 and 40 are told apart
 		probes = append(probes, "qzj7w#kx9v!mfp2"[:n])
 	}
